@@ -201,6 +201,29 @@ def _struct_job(job):
     return dict(res=res.to_json(), cands=cands, sample=sample)
 
 
+def _trivial_job(job):
+    """programs that end in a computational-basis or other product state (empty circuit, Paulis only, diagonal gates
+    and controlled gates acting trivially): concrete programs from a seeded generator, every configuration"""
+    n, conn, seed = job
+    rnd = random.Random(seed)
+    core.tt_disable()
+    progs = [[], [("x", [q]) for q in range(n) if rnd.random() < 0.5], [("z", [0]), ("s", [n - 1]), ("cz", [0, 1])],
+             [("x", [0]), ("cx", [1, 2]), ("swap", [0, n - 1]), ("y", [1])], [("h", [q]) for q in range(n)],
+             [("h", [q]) for q in range(n)] + [("s", [q]) for q in range(n) if rnd.random() < 0.5]]
+    cands = []
+    res_all = core.Result()
+    for prog in progs:
+        def fn():
+            return check_leaf(Ctx.cur, n, conn, prog, 0, history=False)
+        res = explore(fn)
+        for v in res.violations[:1]:
+            cands.append(dict(kind="program", n=n, conn=conn, gates=prog, cls=0, label=v["label"], step=1))
+        res.violations = []
+        res.leaves = []
+        res_all.merge(res)
+    return dict(res=res_all.to_json(), cands=cands, sample=[])
+
+
 def jobs_for(tier, seed):
     small = []
     for (n, conn) in ADVERTISED:
@@ -236,6 +259,7 @@ def run(tier, seed):
     ck.bounds += ["C07-a small programs: ALL gate sequences over {id,x,y,z,h,s,sdg}x qubit and {cx,cz,swap}x ordered pair of length <=%s on 2 qubits and <=%s on 3 qubits (gate choices symbolic, realised by the solver: this part is solver-driven enumeration)" % (("3", "2") if tier == "quick" else ("4", "3")),
                   "structured long programs (up to ~70 gates incl. Y, I, redundant inverse pairs, SWAP pairs, CX- or CZ-built graph states) for n=4..6: %s; Pauli layer in a seeded affine family of 4 (quick, n=6: 1)%s" % (
                       "every class of every configuration" if tier == "quick" else "every class of every configuration", "" if tier == "quick" else ", one local Clifford symbolic (6 values)"),
+                  "programs ending in computational-basis / product states (empty circuit, Paulis, trivially acting controlled gates, H layers) for every configuration with n>=4",
                   "history: a re-signed variant of the same program is compressed next and both results are re-examined"]
     ck.outside += ["arbitrary programs longer than the bound (lifted through C14-circuit + C01, DESIGN.md §C07-b)", "global phase (the property allows it)"]
     ck.validated += ztab.validate_against_qiskit(seed=seed, trials=100)
@@ -248,6 +272,12 @@ def run(tier, seed):
             ck.sample("program", r["sample"][0])
         for c in r["cands"]:
             cands.append(("program n=%d %s %s step=%s %s" % (c["n"], c["conn"], c["gates"], c["step"], c["label"][:40]), c, "%d-%s program %s: %s" % (c["n"], c["conn"], c["gates"], c["label"])))
+    triv = [(n, conn, seed + 3 * n) for (n, conn) in ADVERTISED if n >= 4]
+    for job, r in harness.pmap(_trivial_job, triv):
+        res = core.Result.from_json(r["res"])
+        ck.add("product-state programs %d-%s" % job[:2], res, sample=0)
+        for c in r["cands"]:
+            cands.append(("trivial n=%d %s %s" % (c["n"], c["conn"], c["gates"]), c, "%d-%s program %s (product state): %s" % (c["n"], c["conn"], c["gates"], c["label"])))
     for job, r in harness.pmap(_struct_job, struct, progress=1000):
         res = core.Result.from_json(r["res"])
         ck.add("structured %d-%s" % job[:2], res, sample=0)
